@@ -22,6 +22,12 @@ type messageSetReader struct {
 	// This is used to detect truncation of the response.
 	lengthRemain int
 
+	// The offset following the header-only record batches seen so far (zero
+	// if there was none). Log compaction retains the header of a batch whose
+	// records were all removed; such a batch yields no message, but the next
+	// fetch must start after it.
+	emptyNext int64
+
 	decompressed *bytes.Buffer
 }
 
@@ -126,8 +132,17 @@ func (r *messageSetReader) readMessage(min int64, key readBytesFunc, val readByt
 		err = RequestTimedOut
 		return
 	}
-	if err = r.readHeader(); err != nil {
-		return
+	for {
+		if err = r.readHeader(); err != nil {
+			return
+		}
+		if r.header.magic == 2 && r.count == 0 {
+			// A record batch without records (log compaction keeps the
+			// header of a batch whose records were all removed): there is
+			// nothing to read in it, look at the next one.
+			continue
+		}
+		break
 	}
 	switch r.header.magic {
 	case 0, 1:
@@ -338,6 +353,12 @@ func (r *messageSetReader) readMessageV2(_ int64, key readBytesFunc, val readByt
 	return
 }
 
+// batchDone reports whether every message of the message set or record batch
+// the last message belonged to has been read.
+func (r *messageSetReader) batchDone() bool {
+	return r.readerStack != nil && r.count == 0
+}
+
 func (r *messageSetReader) discardBytes() (err error) {
 	r.remain, err = discardBytes(r.reader, r.remain)
 	return
@@ -482,6 +503,11 @@ func (r *messageSetReader) readHeader() (err error) {
 		r.count = int(r.header.v2.count)
 		// Subtracts the header bytes from the length
 		r.lengthRemain = int(r.header.length) - 49
+		if r.count == 0 {
+			if next := r.header.firstOffset + int64(r.header.v2.lastOffsetDelta) + 1; next > r.emptyNext {
+				r.emptyNext = next
+			}
+		}
 		if r.debug {
 			r.log("Read v2 header with count=%d offset=%d len=%d magic=%d attributes=%d", r.count, r.header.firstOffset, r.header.length, r.header.magic, r.header.v2.attributes)
 		}
